@@ -1,10 +1,5 @@
-import Driver.Common
-import Driver.OpsSP
-import Driver.OpsPT
+import Driver.Registry
 open Altrios Altrios.Proto Driver
-
-def allHandlers : List (String × Handler) :=
-  Driver.SPOps.handlers ++ Driver.PTOps.handlers
 
 def answer (line : String) : String :=
   match (line.trimAscii.toString.splitOn " ").filter (· ≠ "") with
